@@ -300,6 +300,7 @@ Proof. intros A B C R R' f l l1 H. induction H; intros HR; simpl; constructor; a
 Section Gen.
 Variable L : Z -> list preq -> list bool -> Z.
 Hypothesis L_hi : forall a q fl, L a q fl <= commit_fixed a q fl.
+Variable Er : bool.
 Variable N0 : Z.
 
 Definition Bd (st : state) : Z := Z.max N0 (written st).
@@ -482,7 +483,7 @@ Proof.
   intros st ps El. apply Forall2_combine_map; [exact El|]. intros x p _. simpl. destruct p; simpl; lia.
 Qed.
 
-Lemma coll_put_rec_ok : forall st ps, InvW st -> InvW (coll_put_rec ps st) /\ st_le st (coll_put_rec ps st).
+Lemma coll_put_rec_ok : forall st ps, InvW st -> InvW (coll_put_rec Er ps st) /\ st_le st (coll_put_rec Er ps st).
 Proof.
   intros st ps I. unfold coll_put_rec.
   destruct (indef st || indep st); [now apply noop_ok|].
@@ -493,22 +494,25 @@ Proof.
   pose proof (coll_put_rec_F st ps El) as F.
   set (ranks1 := map (fun x => part_done (fst x) (snd x)) (combine (ranks st) ps)) in *.
   destruct (ghost_ok st ranks1 I F) as [I1 L1].
-  assert (Hmx : zmaxl (map (fun x => part_new (fst x) (snd x)) (combine (ranks st) ps)) <= Bd (set_ranks st ranks1)).
+  assert (Hmx : zmaxl (map (fun x => part_new Er (fst x) (snd x)) (combine (ranks st) ps)) <= Bd (set_ranks st ranks1)).
   { apply zmaxl_le; [apply Bd_nonneg, (iw_n0 _ I)|]. intros x Hx. apply in_map_iff in Hx.
     destruct Hx as [[r p] [<- Hin]]. simpl.
     assert (Hr : In r (ranks st)) by (eapply in_combine_l; exact Hin).
     pose proof (iw_rk _ I) as Hk. rewrite Forall_forall in Hk. specialize (Hk r Hr).
     pose proof (st_le_Bd _ _ L1) as HB.
-    destruct p as [|hi|]; simpl; try lia.
-    assert (Hi : In (part_done r (PRec hi)) ranks1).
-    { unfold ranks1. apply in_map_iff. exists (r, PRec hi). auto. }
-    pose proof (written_ge (set_ranks st ranks1) _ Hi) as Hw. simpl in Hw. unfold Bd. lia. }
+    assert (Hi : In (part_done r p) ranks1).
+    { unfold ranks1. apply in_map_iff. exists (r, p). auto. }
+    pose proof (written_ge (set_ranks st ranks1) _ Hi) as Hw. simpl in Hw.
+    unfold Bd in *.
+    destruct p as [|hi|hi|]; cbn [part_new part_done g_own set_own snd fst] in *; try lia.
+    destruct Er; lia. }
   destruct (bump_ok _ _ I1 Hmx) as [I2 L2]. split; [exact I2|eapply st_le_trans; eauto].
 Qed.
 
-Lemma coll_put_rec_S : forall st ps, InvS st -> InvS (coll_put_rec ps st).
+Lemma coll_put_rec_S : forall st ps, InvS st -> (Er = true \/ forallb erange_free_part ps = true) ->
+  InvS (coll_put_rec Er ps st).
 Proof.
-  intros st ps S. unfold coll_put_rec.
+  intros st ps S X. unfold coll_put_rec.
   destruct (indef st || indep st); [exact S|].
   destruct (negb (length ps =? length (ranks st))%nat) eqn:El; [exact S|].
   destruct (length (filter is_invalid ps) =? length ps)%nat; [exact S|].
@@ -517,12 +521,14 @@ Proof.
   destruct Hin as [[r p] [<- Hin]]. simpl.
   assert (Hr : In r (ranks st)) by (eapply in_combine_l; exact Hin).
   unfold InvS in S. rewrite Forall_forall in S. specialize (S r Hr).
-  assert (Hm : part_new r p <= zmaxl (map (fun x => part_new (fst x) (snd x)) (combine (ranks st) ps))).
+  assert (Hm : part_new Er r p <= zmaxl (map (fun x => part_new Er (fst x) (snd x)) (combine (ranks st) ps))).
   { apply zmaxl_ge. apply in_map_iff. exists (r, p). auto. }
-  destruct p; simpl in *; lia.
+  destruct p as [|hi|hi|]; simpl in *; try lia.
+  destruct X as [X|X]; [destruct Er; [lia|discriminate X]|].
+  rewrite forallb_forall in X. specialize (X _ (in_combine_r _ _ _ _ Hin)). discriminate X.
 Qed.
 
-Lemma coll_put_rec_agree : forall st ps, Agree st -> Agree (coll_put_rec ps st).
+Lemma coll_put_rec_agree : forall st ps, Agree st -> Agree (coll_put_rec Er ps st).
 Proof.
   intros st ps A. unfold coll_put_rec.
   destruct (indef st || indep st); [exact A|].
@@ -605,34 +611,32 @@ Proof. intros. unfold post. apply ghost_agree; auto using post_F. Qed.
 
 (* ---------------------------------------------------------------- independent put *)
 
-Definition indep_put_f (p : part) (r : rk) : rk :=
-  match p with
-  | PRec hi =>
-      let r1 := set_own r (Z.max (g_own r) (hi + 1)) in
-      if numrecs r1 <? hi + 1 then set_ndirty (set_numrecs r1 (hi + 1)) true else r1
-  | _ => r
-  end.
-
 Lemma indep_put_f_spec : forall p r,
-  numrecs r <= numrecs (indep_put_f p r) /\ g_own r <= g_own (indep_put_f p r) /\
-  numrecs (indep_put_f p r) <= Z.max (numrecs r) (g_own (indep_put_f p r)) /\
-  (g_own r <= numrecs r -> g_own (indep_put_f p r) <= numrecs (indep_put_f p r)).
+  numrecs r <= numrecs (indep_put_f Er p r) /\ g_own r <= g_own (indep_put_f Er p r) /\
+  numrecs (indep_put_f Er p r) <= Z.max (numrecs r) (g_own (indep_put_f Er p r)) /\
+  (Er = true \/ erange_free_part p = true -> g_own r <= numrecs r ->
+   g_own (indep_put_f Er p r) <= numrecs (indep_put_f Er p r)).
 Proof.
-  intros p r. destruct p as [|hi|]; simpl; try lia.
-  destruct (Z.ltb_spec (numrecs r) (hi + 1)); simpl; lia.
+  intros p r. unfold indep_put_f.
+  destruct p as [|hi|hi|]; simpl; try (rewrite Z.ltb_irrefl; simpl; repeat split; intros; lia).
+  - destruct (Z.ltb_spec (numrecs r) (hi + 1)); simpl; repeat split; intros; lia.
+  - destruct Er; simpl.
+    + destruct (Z.ltb_spec (numrecs r) (hi + 1)); simpl; repeat split; intros; lia.
+    + rewrite Z.ltb_irrefl. simpl. repeat split; try lia; intros [X|X]; discriminate X.
 Qed.
 
-Lemma indep_put_rec_ok : forall st i p, InvW st -> InvW (indep_put_rec i p st) /\ st_le st (indep_put_rec i p st).
+Lemma indep_put_rec_ok : forall st i p, InvW st -> InvW (indep_put_rec Er i p st) /\ st_le st (indep_put_rec Er i p st).
 Proof.
   intros st i p I. unfold indep_put_rec.
   destruct (indef st); simpl; [now apply noop_ok|]. destruct (indep st) eqn:Ei; simpl; [|now apply noop_ok].
-  apply (upd_ok st i (indep_put_f p)); auto. intros r _. pose proof (indep_put_f_spec p r). lia.
+  apply (upd_ok st i (indep_put_f Er p)); auto. intros r _. pose proof (indep_put_f_spec p r). lia.
 Qed.
 
-Lemma indep_put_rec_S : forall st i p, InvS st -> InvS (indep_put_rec i p st).
+Lemma indep_put_rec_S : forall st i p, InvS st -> (Er = true \/ erange_free_part p = true) ->
+  InvS (indep_put_rec Er i p st).
 Proof.
-  intros st i p S. unfold indep_put_rec. destruct (indef st || negb (indep st)); [exact S|].
-  apply (upd_invS st i (indep_put_f p)); [exact S|]. intros r _ H. now apply indep_put_f_spec.
+  intros st i p S X. unfold indep_put_rec. destruct (indef st || negb (indep st)); [exact S|].
+  apply (upd_invS st i (indep_put_f Er p)); [exact S|]. intros r _ H. now apply indep_put_f_spec.
 Qed.
 
 (* ---------------------------------------------------------------- wait *)
@@ -644,6 +648,8 @@ Definition exact_at (st : state) (o : op) : Prop :=
   match o with
   | WaitAll sels => Forall (fun rs => exact_q (fst rs) (snd rs)) (combine (ranks st) sels)
   | Wait i sel => forall r, nth_error (ranks st) i = Some r -> exact_q r sel
+  | CollPutRec ps => Er = true \/ forallb erange_free_part ps = true
+  | IndepPutRec _ p => Er = true \/ erange_free_part p = true
   | _ => True
   end.
 
@@ -939,7 +945,7 @@ Qed.
 
 (* ---------------------------------------------------------------- one step *)
 
-Lemma step_ok : forall st o, InvW st -> InvW (step L st o) /\ st_le st (step L st o).
+Lemma step_ok : forall st o, InvW st -> InvW (step L Er st o) /\ st_le st (step L Er st o).
 Proof.
   intros st o I. unfold step. destruct (hung st); [now apply noop_ok|].
   destruct o; try (now apply noop_ok).
@@ -958,7 +964,7 @@ Proof.
   - now apply reopen_ok.
 Qed.
 
-Lemma step_S : forall st o, InvW st -> InvS st -> exact_at st o -> InvS (step L st o).
+Lemma step_S : forall st o, InvW st -> InvS st -> exact_at st o -> InvS (step L Er st o).
 Proof.
   intros st o I S X. unfold step. destruct (hung st); [exact S|].
   destruct o; try exact S.
@@ -983,7 +989,7 @@ Definition quiet (o : op) : bool := match o with IndepPutRec _ _ | Wait _ _ => f
 Definition sync_op (o : op) : bool :=
   match o with EndIndep | Sync | SyncNumrecs | Redef | Reopen => true | _ => false end.
 
-Lemma step_agree : forall st o, InvW st -> Agree st -> quiet o = true -> Agree (step L st o).
+Lemma step_agree : forall st o, InvW st -> Agree st -> quiet o = true -> Agree (step L Er st o).
 Proof.
   intros st o I A Q. pose proof (step_ok st o I) as [I' _]. revert I'. unfold step.
   destruct (hung st); [intros _; exact A|].
@@ -1006,7 +1012,7 @@ Proof.
 Qed.
 
 Lemma sync_agree : forall st o, InvW st -> hung st = false -> indef st = false -> sync_op o = true ->
-  Agree (step L st o).
+  Agree (step L Er st o).
 Proof.
   intros st o I Hh Hd Q. pose proof (step_ok st o I) as [I' _]. revert I'. unfold step. rewrite Hh.
   destruct o; try discriminate; intros I'.
@@ -1040,31 +1046,31 @@ Proof.
   intros n Hn. unfold InvS. simpl. rewrite Forall_forall. intros r Hr. apply repeat_spec in Hr. subst. simpl. lia.
 Qed.
 
-Lemma run_app : forall ops1 ops2 st, run L st (ops1 ++ ops2) = run L (run L st ops1) ops2.
+Lemma run_app : forall ops1 ops2 st, run L Er st (ops1 ++ ops2) = run L Er (run L Er st ops1) ops2.
 Proof. intros. unfold run. apply fold_left_app. Qed.
 
-Lemma run_ok : forall ops st, InvW st -> InvW (run L st ops) /\ st_le st (run L st ops).
+Lemma run_ok : forall ops st, InvW st -> InvW (run L Er st ops) /\ st_le st (run L Er st ops).
 Proof.
   induction ops as [|o ops IH]; intros st I; simpl; [now apply noop_ok|].
   destruct (step_ok st o I) as [I1 L1]. destruct (IH _ I1) as [I2 L2].
   split; [exact I2|eapply st_le_trans; eauto].
 Qed.
 
-Lemma run_S : forall ops st, InvW st -> InvS st -> hist_all L exact_at st ops -> InvS (run L st ops).
+Lemma run_S : forall ops st, InvW st -> InvS st -> hist_all L Er exact_at st ops -> InvS (run L Er st ops).
 Proof.
   induction ops as [|o ops IH]; intros st I S X; simpl; [exact S|].
   destruct X as [X1 X2]. destruct (step_ok st o I) as [I1 _].
   apply IH; auto. now apply step_S.
 Qed.
 
-Lemma hist_all_app : forall P ops1 ops2 st, hist_all L P st (ops1 ++ ops2) ->
-  hist_all L P st ops1 /\ hist_all L P (run L st ops1) ops2.
+Lemma hist_all_app : forall P ops1 ops2 st, hist_all L Er P st (ops1 ++ ops2) ->
+  hist_all L Er P st ops1 /\ hist_all L Er P (run L Er st ops1) ops2.
 Proof.
   induction ops1 as [|o ops1 IH]; intros ops2 st H; simpl in *; [auto|].
   destruct H as [H1 H2]. destruct (IH _ _ H2). auto.
 Qed.
 
-Lemma run_agree : forall ops st, InvW st -> Agree st -> forallb quiet ops = true -> Agree (run L st ops).
+Lemma run_agree : forall ops st, InvW st -> Agree st -> forallb quiet ops = true -> Agree (run L Er st ops).
 Proof.
   induction ops as [|o ops IH]; intros st I A Q; simpl in *; [exact A|].
   apply andb_true_iff in Q. destruct Q as [Q1 Q2]. destruct (step_ok st o I) as [I1 _].
@@ -1076,7 +1082,7 @@ Qed.
 (* in collective mode (and in define mode) every rank holds the header's value; no rank is ever
    above max(N0, written); nothing is below the header *)
 Theorem gen_agree : forall n ops, 0 <= N0 ->
-  let st := run L (init n N0) ops in
+  let st := run L Er (init n N0) ops in
   (indep st = false -> forall r, In r (ranks st) -> numrecs r = hdr st) /\
   (forall r, In r (ranks st) -> hdr st <= numrecs r <= Z.max N0 (written st)) /\
   N0 <= hdr st <= Z.max N0 (written st).
@@ -1091,7 +1097,7 @@ Proof.
 Qed.
 
 Theorem gen_monotone : forall n ops1 ops2, 0 <= N0 ->
-  let st := run L (init n N0) ops1 in let st' := run L (init n N0) (ops1 ++ ops2) in
+  let st := run L Er (init n N0) ops1 in let st' := run L Er (init n N0) (ops1 ++ ops2) in
   hdr st <= hdr st' /\ Forall2 (fun r r' => numrecs r <= numrecs r' /\ g_own r <= g_own r') (ranks st) (ranks st').
 Proof.
   intros n ops1 ops2 Hn st st'. unfold st'. rewrite run_app. fold st.
@@ -1099,8 +1105,8 @@ Proof.
   destruct (run_ok ops2 _ I) as [_ Hl]. exact Hl.
 Qed.
 
-Theorem gen_coherent : forall n ops, 0 <= N0 -> hist_all L exact_at (init n N0) ops ->
-  let st := run L (init n N0) ops in
+Theorem gen_coherent : forall n ops, 0 <= N0 -> hist_all L Er exact_at (init n N0) ops ->
+  let st := run L Er (init n N0) ops in
   indep st = false -> forall r, In r (ranks st) -> numrecs r = hdr st /\ hdr st = Z.max N0 (written st).
 Proof.
   intros n ops Hn X st Hi r Hr. destruct (run_ok ops _ (init_InvW n Hn)) as [I _]. fold st in I.
@@ -1111,10 +1117,10 @@ Proof.
 Qed.
 
 Theorem gen_indep_then_sync : forall n ops o ops2, 0 <= N0 ->
-  hist_all L exact_at (init n N0) (ops ++ o :: ops2) ->
-  sync_op o = true -> hung (run L (init n N0) ops) = false -> indef (run L (init n N0) ops) = false ->
+  hist_all L Er exact_at (init n N0) (ops ++ o :: ops2) ->
+  sync_op o = true -> hung (run L Er (init n N0) ops) = false -> indef (run L Er (init n N0) ops) = false ->
   forallb quiet ops2 = true ->
-  let st := run L (init n N0) (ops ++ o :: ops2) in
+  let st := run L Er (init n N0) (ops ++ o :: ops2) in
   forall r, In r (ranks st) -> numrecs r = hdr st /\ hdr st = Z.max N0 (written st).
 Proof.
   intros n ops o ops2 Hn X Q Hh Hd Q2 st r Hr.
@@ -1131,9 +1137,9 @@ Proof.
 Qed.
 
 Theorem gen_sync_agree : forall n ops o ops2, 0 <= N0 ->
-  sync_op o = true -> hung (run L (init n N0) ops) = false -> indef (run L (init n N0) ops) = false ->
+  sync_op o = true -> hung (run L Er (init n N0) ops) = false -> indef (run L Er (init n N0) ops) = false ->
   forallb quiet ops2 = true ->
-  let st := run L (init n N0) (ops ++ o :: ops2) in
+  let st := run L Er (init n N0) (ops ++ o :: ops2) in
   forall r, In r (ranks st) -> numrecs r = hdr st.
 Proof.
   intros n ops o ops2 Hn Q Hh Hd Q2 st r Hr.
@@ -1145,8 +1151,8 @@ Proof.
   unfold Agree in A. rewrite Forall_forall in A. auto.
 Qed.
 
-Theorem gen_readable : forall n ops, 0 <= N0 -> hist_all L exact_at (init n N0) ops ->
-  let st := run L (init n N0) ops in
+Theorem gen_readable : forall n ops, 0 <= N0 -> hist_all L Er exact_at (init n N0) ops ->
+  let st := run L Er (init n N0) ops in
   (forall r, In r (ranks st) -> g_own r <= numrecs r) /\
   (indep st = false -> forall r, In r (ranks st) -> written st <= numrecs r).
 Proof.
@@ -1170,28 +1176,28 @@ Proof. intros. apply loop_over_ge. Qed.
 Lemma fixed_hi : forall a q fl, commit_fixed a q fl <= commit_fixed a q fl.
 Proof. intros. lia. Qed.
 
-Lemma hist_all_imp : forall L (P Q : state -> op -> Prop), (forall s o, P s o -> Q s o) ->
-  forall ops st, hist_all L P st ops -> hist_all L Q st ops.
-Proof. intros L P Q H. induction ops as [|o ops IH]; intros st X; simpl in *; [auto|]. destruct X; auto. Qed.
+Lemma hist_all_imp : forall L Er (P Q : state -> op -> Prop), (forall s o, P s o -> Q s o) ->
+  forall ops st, hist_all L Er P st ops -> hist_all L Er Q st ops.
+Proof. intros L Er P Q H. induction ops as [|o ops IH]; intros st X; simpl in *; [auto|]. destruct X; auto. Qed.
 
-Lemma hist_allb_all : forall L (P : state -> op -> bool) ops st, hist_allb L P st ops = true ->
-  hist_all L (fun s o => P s o = true) st ops.
+Lemma hist_allb_all : forall L Er (P : state -> op -> bool) ops st, hist_allb L Er P st ops = true ->
+  hist_all L Er (fun s o => P s o = true) st ops.
 Proof.
-  intros L P. induction ops as [|o ops IH]; intros st H; simpl in *; [auto|].
+  intros L Er P. induction ops as [|o ops IH]; intros st H; simpl in *; [auto|].
   apply andb_true_iff in H. destruct H; auto.
 Qed.
 
-Lemma hist_all_true : forall L (P : state -> op -> Prop), (forall s o, P s o) -> forall ops st, hist_all L P st ops.
-Proof. intros L P H. induction ops; intros st; simpl; auto. Qed.
+Lemma hist_all_true : forall L Er (P : state -> op -> Prop), (forall s o, P s o) -> forall ops st, hist_all L Er P st ops.
+Proof. intros L Er P H. induction ops; intros st; simpl; auto. Qed.
 
-Lemma fixed_exact : forall st o, exact_at commit_fixed st o.
+Lemma fixed_exact : forall st o, exact_at commit_fixed true st o.
 Proof.
   intros st o. destruct o; simpl; auto.
   - rewrite Forall_forall. intros rs _ fl _. reflexivity.
   - intros r _ fl _. reflexivity.
 Qed.
 
-Lemma head_ok_exact_at : forall st o, head_ok st o = true -> exact_at commit_loop st o.
+Lemma head_ok_exact_at : forall st o, head_ok st o = true -> exact_at commit_loop true st o.
 Proof.
   intros st o H. destruct o; simpl in *; auto.
   - rewrite Forall_forall. intros rs Hin fl E. rewrite forallb_forall in H. specialize (H rs Hin).
@@ -1202,16 +1208,15 @@ Qed.
 Definition coll_write (o : op) : bool :=
   match o with CollPutRec _ | CollPutFix | FillRec _ | WaitAll _ => true | _ => false end.
 
-Lemma coll_write_indep : forall L st o, coll_write o = true -> indep (step L st o) = indep st.
+Lemma coll_write_indep : forall L Er st o, coll_write o = true -> indep (step L Er st o) = indep st.
 Proof.
-  intros L st o H. unfold step. destruct (hung st); [reflexivity|].
+  intros L Er st o H. unfold step. destruct (hung st); [reflexivity|].
   destruct o; try discriminate; try reflexivity.
   - unfold coll_put_rec. destruct (indef st || indep st); [reflexivity|].
     destruct (negb (length ps =? length (ranks st))%nat); [reflexivity|].
     destruct (length (filter is_invalid ps) =? length ps)%nat; [reflexivity|].
     destruct (0 <? length (filter is_invalid ps))%nat; [reflexivity|].
-    now destruct (coll_update_modes (zmaxl (map (fun x => part_new (fst x) (snd x)) (combine (ranks st) ps)))
-                   (set_ranks st (map (fun x => part_done (fst x) (snd x)) (combine (ranks st) ps)))) as [-> _].
+    match goal with |- indep (coll_update ?m ?s) = _ => now destruct (coll_update_modes m s) as [-> _] end.
   - unfold fill_rec. destruct (indef st || indep st); [reflexivity|].
     destruct (negb (length recnos =? length (ranks st))%nat); [reflexivity|].
     match goal with |- indep (coll_update ?m ?s) = _ => now destruct (coll_update_modes m s) as [-> _] end.
@@ -1229,7 +1234,7 @@ Theorem coll_coherent : forall n N0 ops, 0 <= N0 ->
   indep st = false ->
   forall r, In r (ranks st) -> numrecs r = hdr st /\ hdr st = Z.max N0 (written st).
 Proof.
-  intros n N0 ops Hn. apply (gen_coherent commit_fixed fixed_hi N0 n ops Hn).
+  intros n N0 ops Hn. apply (gen_coherent commit_fixed fixed_hi true N0 n ops Hn).
   apply hist_all_true. apply fixed_exact.
 Qed.
 
@@ -1252,21 +1257,21 @@ Theorem indep_then_sync : forall n N0 ops o ops2, 0 <= N0 ->
   let st := run_fixed (init n N0) (ops ++ o :: ops2) in
   forall r, In r (ranks st) -> numrecs r = hdr st /\ hdr st = Z.max N0 (written st).
 Proof.
-  intros n N0 ops o ops2 Hn. apply (gen_indep_then_sync commit_fixed fixed_hi N0 n ops o ops2 Hn).
+  intros n N0 ops o ops2 Hn. apply (gen_indep_then_sync commit_fixed fixed_hi true N0 n ops o ops2 Hn).
   apply hist_all_true. apply fixed_exact.
 Qed.
 
 Theorem numrecs_monotone : forall n N0 ops1 ops2, 0 <= N0 ->
   let st := run_fixed (init n N0) ops1 in let st' := run_fixed (init n N0) (ops1 ++ ops2) in
   hdr st <= hdr st' /\ Forall2 (fun r r' => numrecs r <= numrecs r' /\ g_own r <= g_own r') (ranks st) (ranks st').
-Proof. intros n N0. apply (gen_monotone commit_fixed fixed_hi N0 n). Qed.
+Proof. intros n N0. apply (gen_monotone commit_fixed fixed_hi true N0 n). Qed.
 
 Theorem completed_write_readable : forall n N0 ops, 0 <= N0 ->
   let st := run_fixed (init n N0) ops in
   (forall r, In r (ranks st) -> g_own r <= numrecs r) /\
   (indep st = false -> forall r, In r (ranks st) -> written st <= numrecs r).
 Proof.
-  intros n N0 ops Hn. apply (gen_readable commit_fixed fixed_hi N0 n ops Hn).
+  intros n N0 ops Hn. apply (gen_readable commit_fixed fixed_hi true N0 n ops Hn).
   apply hist_all_true. apply fixed_exact.
 Qed.
 
@@ -1277,12 +1282,12 @@ Theorem coll_agree_head : forall n N0 ops, 0 <= N0 ->
   (indep st = false -> forall r, In r (ranks st) -> numrecs r = hdr st) /\
   (forall r, In r (ranks st) -> hdr st <= numrecs r <= Z.max N0 (written st)) /\
   N0 <= hdr st <= Z.max N0 (written st).
-Proof. intros n N0 ops Hn. apply (gen_agree commit_loop loop_hi N0 n ops Hn). Qed.
+Proof. intros n N0 ops Hn. apply (gen_agree commit_loop loop_hi true N0 n ops Hn). Qed.
 
 Theorem numrecs_monotone_head : forall n N0 ops1 ops2, 0 <= N0 ->
   let st := run_head (init n N0) ops1 in let st' := run_head (init n N0) (ops1 ++ ops2) in
   hdr st <= hdr st' /\ Forall2 (fun r r' => numrecs r <= numrecs r' /\ g_own r <= g_own r') (ranks st) (ranks st').
-Proof. intros n N0. apply (gen_monotone commit_loop loop_hi N0 n). Qed.
+Proof. intros n N0. apply (gen_monotone commit_loop loop_hi true N0 n). Qed.
 
 Theorem indep_sync_agree_head : forall n N0 ops o ops2, 0 <= N0 ->
   sync_op o = true ->
@@ -1290,7 +1295,7 @@ Theorem indep_sync_agree_head : forall n N0 ops o ops2, 0 <= N0 ->
   forallb quiet ops2 = true ->
   let st := run_head (init n N0) (ops ++ o :: ops2) in
   forall r, In r (ranks st) -> numrecs r = hdr st.
-Proof. intros n N0 ops o ops2 Hn. apply (gen_sync_agree commit_loop loop_hi N0 n ops o ops2 Hn). Qed.
+Proof. intros n N0 ops o ops2 Hn. apply (gen_sync_agree commit_loop loop_hi true N0 n ops o ops2 Hn). Qed.
 
 (* the full statements, as they would read for the library as it is *)
 Definition coll_coherent_full : Prop := forall n N0 ops, 0 <= N0 ->
@@ -1339,40 +1344,40 @@ Qed.
 (* ... and proved for the histories in which every wait finds the record requests it completes among
    the first k = (number of requests it completes) queue entries; in particular every history whose
    waits name all pending requests (NC_REQ_ALL or the full id list) *)
-Lemma head_ok_hist : forall st ops, hist_allb commit_loop head_ok st ops = true ->
-  hist_all commit_loop (exact_at commit_loop) st ops.
+Lemma head_ok_hist : forall st ops, hist_allb commit_loop true head_ok st ops = true ->
+  hist_all commit_loop true (exact_at commit_loop true) st ops.
 Proof.
   intros st ops H. eapply hist_all_imp; [|apply hist_allb_all; exact H]. intros s o. apply head_ok_exact_at.
 Qed.
 
 Theorem coll_coherent_partial : forall n N0 ops, 0 <= N0 ->
-  hist_allb commit_loop head_ok (init n N0) ops = true ->
+  hist_allb commit_loop true head_ok (init n N0) ops = true ->
   let st := run_head (init n N0) ops in
   indep st = false ->
   forall r, In r (ranks st) -> numrecs r = hdr st /\ hdr st = Z.max N0 (written st).
 Proof.
-  intros n N0 ops Hn Hh. apply (gen_coherent commit_loop loop_hi N0 n ops Hn). now apply head_ok_hist.
+  intros n N0 ops Hn Hh. apply (gen_coherent commit_loop loop_hi true N0 n ops Hn). now apply head_ok_hist.
 Qed.
 
 Theorem indep_then_sync_partial : forall n N0 ops o ops2, 0 <= N0 ->
-  hist_allb commit_loop head_ok (init n N0) (ops ++ o :: ops2) = true ->
+  hist_allb commit_loop true head_ok (init n N0) (ops ++ o :: ops2) = true ->
   sync_op o = true ->
   hung (run_head (init n N0) ops) = false -> indef (run_head (init n N0) ops) = false ->
   forallb quiet ops2 = true ->
   let st := run_head (init n N0) (ops ++ o :: ops2) in
   forall r, In r (ranks st) -> numrecs r = hdr st /\ hdr st = Z.max N0 (written st).
 Proof.
-  intros n N0 ops o ops2 Hn Hh. apply (gen_indep_then_sync commit_loop loop_hi N0 n ops o ops2 Hn).
+  intros n N0 ops o ops2 Hn Hh. apply (gen_indep_then_sync commit_loop loop_hi true N0 n ops o ops2 Hn).
   now apply head_ok_hist.
 Qed.
 
 Theorem completed_write_readable_partial : forall n N0 ops, 0 <= N0 ->
-  hist_allb commit_loop head_ok (init n N0) ops = true ->
+  hist_allb commit_loop true head_ok (init n N0) ops = true ->
   let st := run_head (init n N0) ops in
   (forall r, In r (ranks st) -> g_own r <= numrecs r) /\
   (indep st = false -> forall r, In r (ranks st) -> written st <= numrecs r).
 Proof.
-  intros n N0 ops Hn Hh. apply (gen_readable commit_loop loop_hi N0 n ops Hn). now apply head_ok_hist.
+  intros n N0 ops Hn Hh. apply (gen_readable commit_loop loop_hi true N0 n ops Hn). now apply head_ok_hist.
 Qed.
 
 (* waits that name every pending request always satisfy the side condition *)
@@ -1395,7 +1400,7 @@ Proof. vm_compute. repeat split. Qed.
 (* the library as it is on the same history: 0 everywhere although record 5 has been written *)
 Example f1_witness_head :
   let st := run_head (init 2 0) f1_witness in
-  map numrecs (ranks st) = [0; 0] /\ hdr st = 0 /\ written st = 6 /\ hist_allb commit_loop head_ok (init 2 0) f1_witness = false.
+  map numrecs (ranks st) = [0; 0] /\ hdr st = 0 /\ written st = 6 /\ hist_allb commit_loop true head_ok (init 2 0) f1_witness = false.
 Proof. vm_compute. repeat split. Qed.
 
 (* a history with a proper subset wait that satisfies head_ok (3 ranks; record requests at the queue head) *)
@@ -1403,7 +1408,7 @@ Definition subset_ok_hist : list op :=
   [Post 0 0 true 536 584 3; Post 0 1 true 536 704 8; Post 2 0 true 536 632 5;
    WaitAll [WIds [Some 0%nat]; WIds []; WIds [Some 0%nat]]; BeginIndep; IndepPutRec 1 (PRec 9); EndIndep].
 Example partial_hyp_ex :
-  hist_allb commit_loop head_ok (init 3 0) subset_ok_hist = true /\
+  hist_allb commit_loop true head_ok (init 3 0) subset_ok_hist = true /\
   let st := run_head (init 3 0) subset_ok_hist in map numrecs (ranks st) = [10; 10; 10] /\ hdr st = 10 /\ indep st = false.
 Proof. vm_compute. repeat split. Qed.
 
@@ -1413,4 +1418,94 @@ Example indep_then_sync_ex :
   map numrecs (ranks (run_fixed (init 2 1) ops)) = [3; 5] /\
   sync_op Sync = true /\ hung (run_fixed (init 2 1) ops) = false /\ indef (run_fixed (init 2 1) ops) = false /\
   map numrecs (ranks (run_fixed (init 2 1) (ops ++ Sync :: [Post 0 7 false 512 512 (-1)]))) = [5; 5].
+Proof. vm_compute. repeat split. Qed.
+
+(* ------------------------------------------------------------------ put_varm without the NC_ERANGE disjunct *)
+(* run_noerange: the corrected wait loop, but put_varm's condition reads `nelems > 0 && status == NC_NOERR`,
+   so a blocking put that returns NC_ERANGE (its data IS written) does not feed its highest record into
+   new_numrecs.  The full statements are refuted; they hold for histories without NC_ERANGE puts. *)
+
+Definition erange_witness : list op := [CollPutRec [PRecE 3; PNone]].
+Definition erange_witness_indep : list op := [BeginIndep; IndepPutRec 1 (PRecE 5)].
+
+Definition coll_coherent_noerange_full : Prop := forall n N0 ops, 0 <= N0 ->
+  let st := run_noerange (init n N0) ops in
+  indep st = false ->
+  forall r, In r (ranks st) -> numrecs r = hdr st /\ hdr st = Z.max N0 (written st).
+
+Definition indep_then_sync_noerange_full : Prop := forall n N0 ops o ops2, 0 <= N0 ->
+  sync_op o = true ->
+  hung (run_noerange (init n N0) ops) = false -> indef (run_noerange (init n N0) ops) = false ->
+  forallb quiet ops2 = true ->
+  let st := run_noerange (init n N0) (ops ++ o :: ops2) in
+  forall r, In r (ranks st) -> numrecs r = hdr st /\ hdr st = Z.max N0 (written st).
+
+Definition completed_write_readable_noerange_full : Prop := forall n N0 ops, 0 <= N0 ->
+  let st := run_noerange (init n N0) ops in
+  (forall r, In r (ranks st) -> g_own r <= numrecs r) /\
+  (indep st = false -> forall r, In r (ranks st) -> written st <= numrecs r).
+
+Theorem coll_coherent_noerange_refuted : ~ coll_coherent_noerange_full.
+Proof.
+  intros H. specialize (H 2%nat 0 erange_witness (Z.le_refl 0)). vm_compute in H.
+  destruct (H eq_refl _ (or_introl eq_refl)) as [_ Hx]. discriminate Hx.
+Qed.
+
+Theorem indep_then_sync_noerange_refuted : ~ indep_then_sync_noerange_full.
+Proof.
+  intros H. specialize (H 2%nat 0 erange_witness_indep EndIndep [] (Z.le_refl 0) eq_refl eq_refl eq_refl eq_refl).
+  vm_compute in H. destruct (H _ (or_introl eq_refl)) as [_ Hx]. discriminate Hx.
+Qed.
+
+Theorem completed_write_readable_noerange_refuted : ~ completed_write_readable_noerange_full.
+Proof.
+  intros H. specialize (H 2%nat 0 erange_witness (Z.le_refl 0)). vm_compute in H.
+  destruct H as [H _]. specialize (H _ (or_introl eq_refl)). vm_compute in H. apply H. reflexivity.
+Qed.
+
+Lemma erange_free_exact_at : forall st o, erange_free st o = true -> exact_at commit_fixed false st o.
+Proof.
+  intros st o H. destruct o; simpl in *; auto.
+  - rewrite Forall_forall. intros rs _ fl _. reflexivity.
+  - intros r _ fl _. reflexivity.
+Qed.
+
+Lemma erange_free_hist : forall st ops, hist_allb commit_fixed false erange_free st ops = true ->
+  hist_all commit_fixed false (exact_at commit_fixed false) st ops.
+Proof.
+  intros st ops H. eapply hist_all_imp; [|apply hist_allb_all; exact H]. intros s o. apply erange_free_exact_at.
+Qed.
+
+Theorem coll_coherent_noerange_partial : forall n N0 ops, 0 <= N0 ->
+  hist_allb commit_fixed false erange_free (init n N0) ops = true ->
+  let st := run_noerange (init n N0) ops in
+  indep st = false ->
+  forall r, In r (ranks st) -> numrecs r = hdr st /\ hdr st = Z.max N0 (written st).
+Proof.
+  intros n N0 ops Hn Hh. apply (gen_coherent commit_fixed fixed_hi false N0 n ops Hn). now apply erange_free_hist.
+Qed.
+
+Theorem completed_write_readable_noerange_partial : forall n N0 ops, 0 <= N0 ->
+  hist_allb commit_fixed false erange_free (init n N0) ops = true ->
+  let st := run_noerange (init n N0) ops in
+  (forall r, In r (ranks st) -> g_own r <= numrecs r) /\
+  (indep st = false -> forall r, In r (ranks st) -> written st <= numrecs r).
+Proof.
+  intros n N0 ops Hn Hh. apply (gen_readable commit_fixed fixed_hi false N0 n ops Hn). now apply erange_free_hist.
+Qed.
+
+(* what survives unconditionally: agreement across ranks and header, upper bound, monotonicity *)
+Theorem coll_agree_noerange : forall n N0 ops, 0 <= N0 ->
+  let st := run_noerange (init n N0) ops in
+  (indep st = false -> forall r, In r (ranks st) -> numrecs r = hdr st) /\
+  (forall r, In r (ranks st) -> hdr st <= numrecs r <= Z.max N0 (written st)) /\
+  N0 <= hdr st <= Z.max N0 (written st).
+Proof. intros n N0 ops Hn. apply (gen_agree commit_fixed fixed_hi false N0 n ops Hn). Qed.
+
+(* with the disjunct (the library as it is): an NC_ERANGE put counts as a completed write *)
+Example erange_counts_ex :
+  let st := run_fixed (init 2 0) erange_witness in
+  map numrecs (ranks st) = [4; 4] /\ hdr st = 4 /\ written st = 4 /\
+  let st' := run_noerange (init 2 0) erange_witness in
+  map numrecs (ranks st') = [0; 0] /\ hdr st' = 0 /\ written st' = 4.
 Proof. vm_compute. repeat split. Qed.
